@@ -9,12 +9,15 @@ pub mod c06;
 pub mod c07;
 pub mod c08;
 pub mod c12;
+pub mod evt;
 pub mod smoke;
 
 pub fn dispatch(a: &ShardArgs) -> Result<(), String> {
     super::refcodec::link::self_test()?;
     super::refcodec::app::self_test()?;
     match a.check.as_str() {
+        "c03" => evt::run(a, "c03", "c03", 8000),
+        "c13" => evt::run(a, "c13", "c13", 8000),
         "c04" => c04::run(a),
         "c05" => c05::run(a),
         "c06" => c06::run(a),
